@@ -17,6 +17,7 @@ Never imports the package.
 """
 from __future__ import annotations
 import ast
+import json
 import sys
 from pathlib import Path
 
@@ -48,7 +49,7 @@ def lean_type(t) -> str:
             return f"List (String × {lean_type_atom(t[1])})"
     return {"int": "Int", "nat": "Nat", "bool": "Bool", "dir": "Dir", "mode": "Mode", "agent": "Agent", "num": "Num", "R": "R",
             "coords": "List Coord", "es": "ES R", "unit": "Unit", "gen": "List Agent", "cfg": "StopCfg R", "book": "Book R",
-            "A": "α", "str": "String", "task": "τ", "self": "Self R σ τ", "objval": "ObjVal", "raws": "List Raw", "tasksem": "TaskSem", "vd": "VarDecl", "var": "Var", "vdget": "VarGet", "raw": "Raw", "coord": "Coord", "bentry": "BEntry", "decoded": "TaskDecl.Decoded", "darg": "TaskDecl.DArg"}[t]
+            "A": "α", "str": "String", "task": "τ", "self": "Self R σ τ", "objval": "ObjVal", "raws": "List Raw", "tasksem": "TaskSem", "vd": "VarDecl", "var": "Var", "vdget": "VarGet", "raw": "Raw", "coord": "Coord", "bentry": "BEntry", "decoded": "TaskDecl.Decoded", "darg": "TaskDecl.DArg", "mmode": "Multi.Mode"}[t]
 
 
 def lean_type_atom(t) -> str:
@@ -199,6 +200,9 @@ SPEC = [
          selfr={"variables": ("variables", L("vd"))}, uses_dispatch=True),
     dict(name="check_input", src=("multitask.py", "Multitask.__check_input__"), params={"name": "str", "kind": "str", "values": O(L("A"))}, poly=True,
          selfr={"_n_algorithms": ("n_algorithms", "int"), "_m_tasks": ("m_tasks", "int")}, ret=O(L(L("A"))), tuple_params=["values"]),
+    dict(name="check_modes", src=("multitask.py", "Multitask.__check_modes__"), params={}, ret="unit", selfr={"_modes": ("modes", O(L(L("str"))))}, multitask=True),
+    dict(name="get_mode", src=("multitask.py", "Multitask.__get_mode__"), params={"id_optimizer": "nat", "id_prob": "nat"}, ret="mmode",
+         selfr={"_modes": ("modes", O(L(L("str"))))}, multitask=True),
     dict(name="agent_trend", src=("utils.py", "agent_trend"), params={"result": "result", "idx": "int", "iters": O(L("int"))}, ret=L("num")),
     dict(name="best_agent_trend", src=("utils.py", "best_agent_trend"), params={"result": "result", "iters": O(L("int"))}, ret=L("num")),
     dict(name="agent_position", src=("utils.py", "agent_position"), params={"result": "result", "idx": "int", "iters": O(L("int"))}, ret=L("coords")),
@@ -337,6 +341,8 @@ class Fn:
                 return ("true" if n.value else "false"), "bool"
             if isinstance(n.value, int):
                 return str(n.value), "intlit"
+            if isinstance(n.value, str) and self.spec.get("multitask"):
+                return json.dumps(n.value), "str"
             self.err(n, f"constant {n.value!r}")
         if isinstance(n, ast.JoinedStr):
             # a name / message string: not modelled, but it must not do anything
@@ -573,6 +579,11 @@ class Fn:
             if not (isinstance(ty, tuple) and ty[0] == "opt"):
                 self.err(n, f"`is None` on a non-optional value of type {ty}")
             return (f"{atom(t)}.isNone" if isinstance(op, ast.Is) else f"{atom(t)}.isSome"), "bool"
+        if isinstance(op, ast.In) and isinstance(b, ast.Name) and b.id == "ModeSolver" and self.spec.get("multitask"):
+            x, xt = self.E(a, env)
+            if xt != "str":
+                self.err(n, f"`in ModeSolver` of a {xt}")
+            return f"(Multi.validMode {atom(x)})", "bool"
         x, xt = self.E(a, env)
         y, yt = self.E(b, env)
         sym = {ast.Eq: "=", ast.NotEq: "≠", ast.Lt: "<", ast.LtE: "≤", ast.Gt: ">", ast.GtE: "≥"}.get(type(op))
@@ -778,6 +789,17 @@ class Fn:
                 return f"(ObjVal.isList {env[n.args[0].id][0]})", "bool"
             if name == "deepcopy" and len(n.args) == 1 and not n.keywords:
                 return self.E(n.args[0], env)  # values have no identity
+            if name == "list" and len(n.args) == 1 and not n.keywords:
+                t, ty = self.E(n.args[0], env)
+                if isinstance(ty, tuple) and ty[0] == "list":
+                    return t, ty
+                self.err(n, f"list() of a {ty}")
+            if name == "ModeSolver" and self.spec.get("multitask") and len(n.args) == 1 and not n.keywords:
+                t, ty = self.E(n.args[0], env)
+                if ty != "str":
+                    self.err(n, f"ModeSolver of a {ty}")
+                self.need_eff(n)
+                return f"(← Multi.parseMode {atom(t)})", "mmode"
             if name == "print":
                 return "()", "unit"
             if name in self.spec.get("opaque", {}):
@@ -963,6 +985,11 @@ class Fn:
                     if not (kw.arg == "axis" and isinstance(kw.value, ast.Constant) and kw.value.value == 0):
                         self.err(n, f"np.argsort keyword {kw.arg}")
                 return f"(Py.npArgsort {atom(t)})", L("nat")
+            if ast.unparse(f) == "chain.from_iterable" and len(n.args) == 1 and not n.keywords:
+                t, ty = self.E(n.args[0], env)
+                if isinstance(ty, tuple) and ty[0] == "list" and isinstance(ty[1], tuple) and ty[1][0] == "list":
+                    return f"({atom(t)}.flatten)", ty[1]
+                self.err(n, f"chain.from_iterable of a {ty}")
             if isinstance(f.value, ast.Name) and f.value.id == "parallel" and f.attr == "as_completed" and len(n.args) == 1:
                 t, ty = self.E(n.args[0], env)
                 return f"(Py.asCompleted σ {atom(t)})", ty
@@ -1369,9 +1396,10 @@ class Fn:
             return
         if name in env and env[name][0] == name and name in self.muts and env[name][1] != ty:
             # a name re-bound to a value of another type (`position = task.initial_solution(position)`): a new binding shadows the old one
-            self.lines.append(f"{pad}let {name} := {term}")
-            env[name] = (name, ty)
-            self.muts.discard(name)
+            self.fresh += 1
+            new = f"{name}_{self.fresh}"           # Lean does not let a mutable variable be shadowed: the re-typed value gets a name of its own
+            self.lines.append(f"{pad}let {new} := {term}")
+            env[name] = (new, ty)
             return
         if name in env and env[name][0] == name and name in self.muts:
             self.lines.append(f"{pad}{name} := {term}")
@@ -1570,6 +1598,18 @@ class Fn:
                 self.lines.append(f"{pad}let {x} := match {xt} with | some v => v | none => {v}")
                 env[x] = (x, xty[1])
                 self.muts.discard(x)
+                return
+        if isinstance(test, ast.Compare) and len(test.ops) == 1 and isinstance(test.ops[0], ast.Is) and isinstance(test.comparators[0], ast.Constant) \
+                and test.comparators[0].value is None and isinstance(test.left, ast.Attribute) and not s.orelse and len(s.body) == 1 \
+                and isinstance(s.body[0], (ast.Return, ast.Raise)):
+            # `if self.x is None: return …` — afterwards self.x is not None
+            x, xty = self.E(test.left, env)
+            if isinstance(xty, tuple) and xty[0] == "opt":
+                self.fresh += 1
+                v = f"n{self.fresh}"
+                self.lines.append(f"{pad}let some {v} := {x} | do")
+                self.S(s.body, dict(env), ind + 1)
+                self.narrow[ast.dump(test.left)] = (v, xty[1])
                 return
         if isinstance(test, ast.Compare) and len(test.ops) == 1 and isinstance(test.ops[0], ast.IsNot) and isinstance(test.comparators[0], ast.Constant) \
                 and test.comparators[0].value is None and isinstance(test.left, ast.Attribute):
@@ -1789,7 +1829,7 @@ def infer_effects(table) -> set[str]:
                         if cand in table:
                             cs.add(cand)
                             break
-                if isinstance(n.func, ast.Name) and n.func.id in ("int", "Agent"):
+                if isinstance(n.func, ast.Name) and n.func.id in ("int", "Agent", "ModeSolver"):
                     own = True
                 if isinstance(n.func, ast.Attribute) and n.func.attr == "correct_solution":
                     own = True
